@@ -469,3 +469,42 @@ theorem reach_FSR {cfg : Cfg} {st0 : State} (h0 : start cfg = .ok st0) (hv : cfg
   exact FSR_run ops hg (FSR_start h0 hv0) hv0 rfl hwf
 
 end Hls.Muxer
+
+namespace Hls.Muxer
+
+/-- streams with equal boundary keys list real segments with equal keys, position by position -/
+theorem reals_key {l l' : List Entry} (h : l.map Entry.key = l'.map Entry.key) :
+    (reals l).map Seg.key = (reals l').map Seg.key := by
+  induction l generalizing l' with
+  | nil =>
+    cases l' with
+    | nil => rfl
+    | cons e r => simp at h
+  | cons e r ih =>
+    cases l' with
+    | nil => simp at h
+    | cons e' r' =>
+      simp only [List.map_cons, List.cons.injEq] at h
+      obtain ⟨h1, h2⟩ := h
+      have := ih h2
+      cases e with
+      | gap d =>
+        cases e' with
+        | gap d' => exact this
+        | seg g' => simp [Entry.key] at h1
+      | seg g =>
+        cases e' with
+        | gap d' => simp [Entry.key] at h1
+        | seg g' =>
+          simp only [Entry.key, Prod.mk.injEq, Option.some.injEq, and_true] at h1
+          simp only [reals, List.map_cons, h1, this]
+
+theorem reals_key_index {l l' : List Entry} (h : l.map Entry.key = l'.map Entry.key) (k : Nat) (g : Seg)
+    (hg : (reals l)[k]? = some g) : ∃ g', (reals l')[k]? = some g' ∧ g'.key = g.key := by
+  have := congrArg (fun x => x[k]?) (reals_key h)
+  simp only [List.getElem?_map, hg, Option.map_some] at this
+  cases hx : (reals l')[k]? with
+  | none => rw [hx] at this; simp at this
+  | some g' => rw [hx] at this; simp only [Option.map_some, Option.some.injEq] at this; exact ⟨g', rfl, this.symm⟩
+
+end Hls.Muxer
